@@ -133,12 +133,13 @@ func (q Ineq) tighten() Ineq {
 	return Ineq{r}
 }
 
+// key identifies the coefficient vector of an inequality (without the constant): of two inequalities with the same
+// vector only the one with the smaller constant (the stronger one) needs to be kept.
 func (q Ineq) key() string {
 	var sb strings.Builder
 	for _, v := range q.L.vars() {
 		fmt.Fprintf(&sb, "%d:%s,", v, q.L.T[v].String())
 	}
-	sb.WriteString(q.L.K.String())
 	return sb.String()
 }
 
@@ -151,7 +152,10 @@ func fmUnsat(qs []Ineq) bool {
 		if len(q.L.T) == 0 {
 			return q.L.K.Sign() < 0 // contradiction
 		}
-		m[q.key()] = q
+		k := q.key()
+		if old, ok := m[k]; !ok || q.L.K.Cmp(old.L.K) < 0 {
+			m[k] = q // same coefficients: keep the tighter bound
+		}
 		return false
 	}
 	for _, q := range qs {
@@ -195,14 +199,14 @@ func fmUnsat(qs []Ineq) bool {
 			c, ok := q.L.T[best]
 			switch {
 			case !ok:
-				next[q.key()] = q
+				add(next, q)
 			case c.Sign() > 0:
 				pos = append(pos, q)
 			default:
 				neg = append(neg, q)
 			}
 		}
-		if len(pos)*len(neg) > 4000 {
+		if len(pos)*len(neg) > 20000 {
 			return false // give up
 		}
 		for _, p := range pos {
@@ -217,7 +221,7 @@ func fmUnsat(qs []Ineq) bool {
 				}
 			}
 		}
-		if len(next) > 3000 {
+		if len(next) > 8000 {
 			return false
 		}
 		cur = next
